@@ -97,7 +97,15 @@ func c31Compare(c *Ctx, cmp *core.FuncInfo, valName func(absint.Val) string) {
 		return "outside"
 	}
 	run := func(label string, reps []absint.Val) {
-		t := absint.Tabulate(absint.Config{P: c.P, Dims: []absint.Dim{{Key: "$recv.head", Domain: reps}, {Key: "$recv.tail", Domain: reps}, {Key: "$p0", Domain: reps}}}, cmp)
+		sameRecv := func(fn *types.Func) bool { // other methods of the location type (empty(), hasData(), ...) are interpreted in place
+			sig, ok := fn.Type().(*types.Signature)
+			if !ok || sig.Recv() == nil || fn == cmp.Obj {
+				return false
+			}
+			csig := cmp.Obj.Type().(*types.Signature)
+			return types.Identical(sig.Recv().Type(), csig.Recv().Type())
+		}
+		t := absint.Tabulate(absint.Config{P: c.P, Inline: sameRecv, Pure: sameRecv, Dims: []absint.Dim{{Key: "$recv.head", Domain: reps}, {Key: "$recv.tail", Domain: reps}, {Key: "$p0", Domain: reps}}}, cmp)
 		if tableProblems(c, "C31.R1", "compare|table|"+label, pos, t) {
 			return
 		}
@@ -179,6 +187,9 @@ func c31Compare(c *Ctx, cmp *core.FuncInfo, valName func(absint.Val) string) {
 					bad = "condition `" + exprStr(e) + "` on the way to an Inside/Void return uses arithmetic (" + b.Op.String() + "): the ordering table is not exhaustive"
 				}
 			case *ast.CallExpr:
+				if fn := core.Callee(info, b); fn != nil && c31OrderOnlyHelper(c, fn) {
+					return false // a sibling predicate that itself only compares (e.g. empty(): head == tail)
+				}
 				bad = "condition `" + exprStr(e) + "` on the way to an Inside/Void return calls a function: the ordering table is not exhaustive"
 			}
 			return true
@@ -952,4 +963,36 @@ func c31R8(c *Ctx, rule string) {
 	if n == 0 {
 		r.Undecided(rule, "purgeBuffers|forced-drop", c.P.Pos(fi.Decl.Pos()), "no forced-drop statements (active.head++ / droppedPackets++) found")
 	}
+}
+
+// c31OrderOnlyHelper: a same-package function whose body is `return <expr>` statements made of comparisons and logical
+// connectives over variables / fields only (no arithmetic, no calls): interpreting it keeps the order abstraction exact.
+func c31OrderOnlyHelper(c *Ctx, fn *types.Func) bool {
+	fi := c.P.DeclOf(fn)
+	if fi == nil || fi.Decl == nil || fi.Decl.Body == nil {
+		return false
+	}
+	ok := true
+	for _, st := range fi.Decl.Body.List {
+		ret, isRet := st.(*ast.ReturnStmt)
+		if !isRet {
+			return false
+		}
+		for _, e := range ret.Results {
+			ast.Inspect(e, func(x ast.Node) bool {
+				switch b := x.(type) {
+				case *ast.BinaryExpr:
+					switch b.Op {
+					case token.EQL, token.NEQ, token.LSS, token.LEQ, token.GTR, token.GEQ, token.LAND, token.LOR:
+					default:
+						ok = false
+					}
+				case *ast.CallExpr:
+					ok = false
+				}
+				return true
+			})
+		}
+	}
+	return ok
 }
